@@ -454,3 +454,92 @@ Definition c02_source_show (c : bool * list zdict * list src_op * list (src_out 
 
 Definition c02_source_check (c : bool * list zdict * list src_op * list (src_out key Z)) : bool :=
   list_eqb src_out_eqb (c02_source_show c) (snd c).
+
+(* ================= lazily produced records =================
+   When the dictionaries come from a generator the producer runs between the constructor's reads and still
+   holds the record objects it has handed over: it may annotate the previous record, refill one buffer
+   dictionary for every record, or delete a key.  The constructor (dataframe.py 74-87) fixes the columns from a
+   copy of the first record's keys taken when that record is read (list(first_dict.keys())) and builds each
+   row when its record is read.  A producer is a list of actions over numbered record objects. *)
+Section Producer.
+Variables K V : Type.
+Variable eqK : forall a b : K, {a = b} + {a <> b}.
+Variable vnone : V.
+
+Inductive pact :=
+| PNew (d : list (K * V))              (* a new record object; its handle is the number of objects so far *)
+| PSet (r : nat) (k : K) (v : V)       (* record r [k] = v *)
+| PDel (r : nat) (k : K)               (* record r .pop(k, None) *)
+| PYield (r : nat).                    (* hand record object r to the consumer *)
+
+Definition dict_del (k : K) (d : list (K * V)) : list (K * V) :=
+  filter (fun kv => if eqK k (fst kv) then false else true) d.
+
+Fixpoint upd_nth {A : Type} (l : list A) (i : nat) (f : A -> A) : list A :=
+  match l, i with
+  | [], _ => []
+  | x :: r, O => f x :: r
+  | x :: r, S j => x :: upd_nth r j f
+  end.
+
+Definition pstore_step (st : list (list (K * V))) (a : pact) : list (list (K * V)) :=
+  match a with
+  | PNew d => st ++ [d]
+  | PSet r k v => upd_nth st r (dict_set eqK k v)
+  | PDel r k => upd_nth st r (dict_del k)
+  | PYield _ => st
+  end.
+
+(* what the consumer is handed: each yielded record as it is at the moment it is yielded *)
+Fixpoint delivered (st : list (list (K * V))) (acts : list pact) : list (list (K * V)) :=
+  match acts with
+  | [] => []
+  | PYield r :: rest =>
+      match nth_error st r with
+      | Some d => d :: delivered st rest
+      | None => delivered st rest
+      end
+  | a :: rest => delivered (pstore_step st a) rest
+  end.
+
+(* the constructor reading lazily: rows are built as the records arrive, against the key list copied from the
+   first record when it was read *)
+Fixpoint lazy_rows (keys : list K) (st : list (list (K * V))) (acts : list pact) : list (list V) :=
+  match acts with
+  | [] => []
+  | PYield r :: rest =>
+      match nth_error st r with
+      | Some d => extract eqK vnone keys d :: lazy_rows keys st rest
+      | None => lazy_rows keys st rest
+      end
+  | a :: rest => lazy_rows keys (pstore_step st a) rest
+  end.
+
+Fixpoint frame_from_producer (st : list (list (K * V))) (acts : list pact) : list K * list (list V) :=
+  match acts with
+  | [] => ([], [])
+  | PYield r :: rest =>
+      match nth_error st r with
+      | Some d => let keys := dict_keys d in (keys, extract eqK vnone keys d :: lazy_rows keys st rest)
+      | None => frame_from_producer st rest
+      end
+  | a :: rest => frame_from_producer (pstore_step st a) rest
+  end.
+
+End Producer.
+
+Arguments PNew {K V}. Arguments PSet {K V}. Arguments PDel {K V}. Arguments PYield {K V}.
+Arguments dict_del {K V}. Arguments pstore_step {K V}. Arguments delivered {K V}. Arguments lazy_rows {K V}. Arguments frame_from_producer {K V}.
+
+(* stream "producer": (actions, observed columns, rows, [r.as_dict for r in frame]) *)
+Definition c02_producer_show (c : list (pact key Z) * result (list key * list (list Z) * list (list (key * Z)))) :=
+  let f := frame_from_producer key_dec 0%Z [] (fst c) in
+  (fst f, snd f, map (as_dict key_dec (fst f)) (snd f)).
+
+Definition c02_producer_check (c : list (pact key Z) * result (list key * list (list Z) * list (list (key * Z)))) : bool :=
+  let '(cols, rows, ds) := c02_producer_show c in
+  match snd c with
+  | Ok (ocols, orows, ods) =>
+      list_eqb key_eqb ocols cols && list_eqb row_eqb orows rows && list_eqb (list_eqb pair_eqb) ods ds
+  | Raise _ => false
+  end.
